@@ -313,10 +313,23 @@ def c03_gen(tier, rng):
             return f != f or f == 0.0 or abs(f) >= 2.0 ** 52 or abs(f) in (0.5, 1.0)
         B = [v for v in P if v[0] in "IF" and boundary(v)]
         pairs = sorted(set(pairs) | set((a, b) for a in B for b in B) | set((a, b) for a in G.TUPLES + ["E"] for b in G.TUPLES + ["E"]))
+    def rebound(case_text, a, b, r):
+        """the same case, but a (or b) first holds another value of its type and is then overwritten"""
+        alt = {"I": ["I0", "I7", "I-1"], "F": ["F0000000000000000", "F8000000000000000", "F3ff0000000000000", "F7ff8000000000000"], "S": ["S", "S61"], "B": ["B0", "B1"],
+               "T": ["T()", "T(I1,I2)"], "E": ["E"]}
+        kind, ops = case_text.split("\t")[1], case_text.split("\t")[2].split(";")
+        pre = []
+        for nm, v in (("a", a), ("b", b)):
+            if v is not None and r.random() < 0.7:
+                pre.append("init %s %s" % (hexs(nm), r.choice(alt[v[0]])))
+        ops = pre + [o.replace("init ", "set ", 1) if o.startswith("init ") else o for o in ops]
+        return G.script(kind, ops)
     for op in G.BINOPS:
         # `^` (routed to std), `/` and `%` (zero and infinite operands): the numeric rows completely, also in the quick tier
         for a, b in (sorted(set(pairs) | set(numeric)) if tier == "quick" and op in ("^", "/", "%") else pairs):
             cases.append((G.op_case_vars(op, a, b), {"kind": "op-vars", "op": op, "a": a, "b": b}))
+            if rng.random() < 0.06 or (a[0] == "F" and b[0] == "F" and a in SP and b in SP):
+                cases.append((rebound(G.op_case_vars(op, a, b), a, b, rng), {"kind": "op-vars", "op": op, "a": a, "b": b}))
             if rng.random() < (1.0 if tier == "thorough" else 0.15):
                 lc = G.op_case_literals(op, a, b)
                 if lc:
@@ -324,6 +337,8 @@ def c03_gen(tier, rng):
     for op in G.UNOPS:
         for a in P:
             cases.append((G.op_case_vars(op, a), {"kind": "op-vars", "op": op, "a": a, "b": None}))
+            if a[0] == "F" or rng.random() < 0.2:
+                cases.append((rebound(G.op_case_vars(op, a), a, None, rng), {"kind": "op-vars", "op": op, "a": a, "b": None}))
             lc = G.op_case_literals(op, a)
             if lc:
                 cases.append((lc, {"kind": "op-lits", "op": op, "a": a, "b": None}))
@@ -385,7 +400,7 @@ def project_text(ty, untyped):
 C12_SETUP = ["init %s I3" % hexs("a"), "init %s F4004000000000000" % hexs("b"), "init %s S%s" % (hexs("c"), hexs("xy")),
              "init %s B1" % hexs("x"), "init %s T(I1,I2)" % hexs("y"), "init %s E" % hexs("z"),
              "setfn %s id" % hexs("f"), "setfn %s swap" % hexs("g"), "setfn %s fail:%s" % (hexs("h"), hexs("boom")),
-             "setfn %s needfloat" % hexs("nf"), "setfn %s neednumber" % hexs("nn")]
+             "setfn %s needfloat" % hexs("nf"), "setfn %s neednumber" % hexs("nn"), "setfn %s konst:I-7" % hexs("min")]
 C12_STRINGS = ["a = 1; a", "1", "1.5", '"s"', "true", "(1,2)", "()", "", "a", "b", "c", "x", "y", "z", "1 +", ")", "(",
                "a += 1", "a + b", "f(a)", "g(1,2)", "h(1)", "a = 5", "q = 1; q", "q", "9223372036854775807", "2^62",
                "1/0", "a; b; c", "a,b", "y == (1,2)", "c + \"z\"", "!x", "-a", "\"", "1e400", "0x10", "a = \"s\"",
@@ -670,6 +685,21 @@ def c05_gen(tier, rng):
         if rng.random() < 0.3:
             e = G.add_redundant_parens(rng, e)
         cases.append(ast_tree_case(e, rng, rng.choice(["space", "tight"])))
+    # open chains and tuples on every level of deep parenthesis nesting
+    for shape in range(4):
+        for d in (5, 9, 10, 11, 12, 16, 17, 18, 31, 32, 33, 34, 64, 65, 100) if tier == "quick" else range(3, 160, 2):
+            e = ("lit", "7", "I7")
+            for i in range(d):
+                inner = ("paren", e)
+                if shape == 0:
+                    e = ("chain", [("var", "a"), ("tuple", [("var", "b"), inner])])
+                elif shape == 1:
+                    e = ("tuple", [("var", "a"), inner, ("var", "b")])
+                elif shape == 2:
+                    e = ("chain", [inner, ("var", "c")])
+                else:
+                    e = ("chain", [("tuple", [("var", "a"), ("var", "b")]), ("tuple", [inner, None])])
+            cases.append(ast_tree_case(G.parenthesize_seq(e), rng, "tight"))
     alphabet = [",", ";", "(", ")", "1", "a", "="]
     for seq in G.token_sequences_exhaustive(alphabet, 5):
         cases.append(("TREE\t" + hexs(" ".join(seq)), {"kind": "token-seq"}))
@@ -1242,6 +1272,11 @@ def c10_gen(tier, rng):
                 for z in elems:
                     add("contains_any", G.vT([a, G.vT([x, y, z])]))
             add("contains", G.vT([a, x]))
+    for x in P:
+        if x[0] != "I":
+            add("str::substring", G.vT([G.vS("foobar"), G.vI(1), x]))
+            add("str::substring", G.vT([G.vS("foobar"), x, G.vI(3)]))
+            add("str::substring", G.vT([G.vS("foobar"), x]))
     # substring: subject x offsets
     for s in G.STRINGS:
         blen = len(s.encode("utf-8"))
@@ -1586,6 +1621,9 @@ def c08_gen(tier, rng):
             ("p += (q = false; rec(5)) *", "ERR WrongOperatorArgumentAmount", ctxt(q="B0"), L(("rec", "I5"))),
             ("(rec(1), boom(2) -)", "ERR CustomMessage", ctxt(), L(("rec", "I1"), ("boom", "I2"))),
             ("rec(1); - ; rec(2)", "ERR WrongOperatorArgumentAmount", ctxt(), L(("rec", "I1"))),
+            ("w = (); rec(1); w = 5; rec(2)", "ERR ExpectedEmpty", ctxt(w="E"), L(("rec", "I1"))),
+            ("u = w = 1; rec(u); u = 5; rec(2); z = 3", "ERR ExpectedEmpty", ctxt(u="E", w="I1"), L(("rec", "E"))),
+            ("w = rec(()); w = rec(1); rec(2)", "ERR ExpectedEmpty", ctxt(w="E"), L(("rec", "E"), ("rec", "I1"))),
             ("min(rec(1), rec(2))", "OK T(I1,I2)", ctxt(), L(("rec", "I1"), ("rec", "I2"), ("min", "T(I1,I2)"))),
             ("len(rec(1))", "ERR CustomMessage", ctxt(), L(("rec", "I1"), ("len", "I1")))]:
         for entry in ("smv", "nmv"):
@@ -1668,7 +1706,7 @@ def c11_gen(tier, rng):
                 cases.append((G.script("H", ops), {"kind": "agree", "src": src, "ctx": "H", "entry": lv + "*" + ty}))
     # contexts without variable storage / read-only kinds
     for src in ["a = 1", "a += 1", "1; a = 2", "q = 1; q", "1 + (z = 2)", "a = 2.5", 'a = "s"', "c = 1", "a ^= 2", "a /= 2.0", "b = 1", 'x = ()', "y = 1", '"a" = 1.5',
-                "z = 1", "a += 0.5"]:
+                "z = 1", "a += 0.5", "a *= 1", "a += 0", "a -= 0", "a /= 1", "x &&= true", "x ||= true", 'c += ""', "b *= 1.0", "a %= 7"]:
         for kind in ("N", "E", "EB"):
             ops = (C12_SETUP if kind == "N" else []) + ["dump", "ev srv " + hexs(src), "dump"] + (["evc smv " + hexs(src), "dump"] if kind == "N" else [])
             cases.append((G.script(kind, ops), {"kind": "nostore", "src": src, "ctx": kind}))
@@ -1725,7 +1763,7 @@ def c11_oracle(case, out, model_out):
             if s.startswith("OK") and s != "OK" and "=" in m["src"] and not m["src"].startswith("q"):
                 return "assignment %r succeeded on context kind %s: %s" % (m["src"], m["ctx"], s)
         evs = [s for s in steps if not s.startswith("CTX{") and s not in ("OK", "NA")]
-        if m["src"] in ("a = 2.5", 'a = "s"', "c = 1", "a ^= 2", "a /= 2.0", "b = 1", "x = ()", "y = 1", '"a" = 1.5', "z = 1", "a += 0.5", "a = 1", "a += 1", "1; a = 2"):
+        if m["src"] in ("a = 2.5", 'a = "s"', "c = 1", "a ^= 2", "a /= 2.0", "b = 1", "x = ()", "y = 1", '"a" = 1.5', "z = 1", "a += 0.5", "a = 1", "a += 1", "1; a = 2", "a *= 1", "a += 0", "a -= 0", "a /= 1", "x &&= true", "x ||= true", 'c += ""', "b *= 1.0", "a %= 7"):
             for s in evs:
                 if s != "ERR ContextNotMutable":
                     return "assignment %r on a context without variable storage (kind %s) must fail with ContextNotMutable in every entry point, got %s" % (m["src"], m["ctx"], s)
@@ -2100,7 +2138,8 @@ def c09_cases(names_builtin, names_other, rng, full):
                             forms = [("%s(3)" % n, "I3"), ("%s 3" % n, "I3"), ("%s()" % n, "E"), ("%s(3, 4)" % n, "T(I3,I4)"),
                                      ('%s "s"' % n, "S" + hexs("s")), ("%s true" % n, "B1"), ("%s 2.5" % n, "F4004000000000000"),
                                      ("%s x" % n, "I3") if kind in ("H", "N") else ("%s (())" % n, "E")]
-                            forms += [("%s %s 3" % (n, n), "I3"), ("%s((3))" % n, "I3"), ("%s /* c */ (3)" % n, "I3"), ("%s\n3" % n, "I3")]
+                            forms += [("%s %s 3" % (n, n), "I3"), ("%s((3))" % n, "I3"), ("%s /* c */ (3)" % n, "I3"), ("%s\n3" % n, "I3"),
+                                      ("%s(true, 3, 4)" % n, "T(B1,I3,I4)"), ("%s((false, 3, 4))" % n, "T(B0,I3,I4)"), ('%s("a", "b", "c", "d")' % n, "T(S61,S62,S63,S64)")]
                             if kind in ("H", "N"):
                                 forms.append(("%s t1" % n, "T(I7)"))     # a one-element tuple is passed as it is
                                 forms.append(("%s(t1)" % n, "T(I7)"))
@@ -2297,7 +2336,7 @@ def c14_gen(tier, rng):
         renamed = rename_ast(e, lambda c, nm: prefix[c] + nm)
         cases.append(("ITER\t" + hexs(src), {"kind": "iter", "src": src,
                                              "want": {"ids": j("WFR"), "vars": j("WR"), "reads": j("R"), "writes": j("W"), "fns": j("F")},
-                                             "renamed": G.tree_of_top(renamed)}))
+                                             "renamed": G.tree_of_top(renamed), "occ": [list(x) for x in occ]}))
     # deep nesting: the traversal has no depth limit
     deep = deep_ast
     for kind in ("right", "left", "neg", "call", "paren", "tuple"):
@@ -2308,7 +2347,7 @@ def c14_gen(tier, rng):
             j = lambda cls: ",".join(hexs(nm) for c, nm in occ if c in cls)
             prefix = {"R": "ivr", "W": "ivw", "F": "if"}
             cases.append(("ITER\t" + hexs(src), {"kind": "iter", "src": src, "want": {"ids": j("WFR"), "vars": j("WR"), "reads": j("R"), "writes": j("W"), "fns": j("F")},
-                                                 "renamed": G.tree_of_top(rename_ast(e, lambda c, nm: prefix[c] + nm))}))
+                                                 "renamed": G.tree_of_top(rename_ast(e, lambda c, nm: prefix[c] + nm)), "occ": [list(x) for x in occ]}))
     # hand-built shapes: non-last children with grandchildren, empty parenthesis nodes, n-ary sequence nodes
     for src in ["(a + b) * (c + d) + e", "f((a, b), (c, (d, e))) + g()", "((), (), a)", "a; (b; (c; d)); e", "(a = b) + (c = d)",
                 "f g h x", "-(-(-a))", "x = y = z = w", "(a, b, c, d, e, f, g)", "a + (b)", "((((a))))", "f()", "(a; ; b)"]:
@@ -2322,6 +2361,13 @@ def c14_gen(tier, rng):
         src = G.render(G.flatten(e), None, "space")
         ren = rename_ast(e, lambda c, nm: ("v_" + nm) if c in "RW" else nm)
         rsrc = G.render(G.flatten(ren), None, "space")
+        if rng.random() < 0.1:      # a string literal that spells the name of the variable it is assigned to, or of another one
+            nm = rng.choice(["foo", "_z", "a1", "c"])
+            e = ("chain", [("asg", "=", nm, ("lit", '"%s"' % rng.choice([nm, "foo", "c"]), "S" + hexs(nm))), ("var", nm), e])
+            e = G.parenthesize_seq(e)
+            src = G.render(G.flatten(e), None, "space")
+            ren = rename_ast(e, lambda c, nm2: ("v_" + nm2) if c in "RW" else nm2)
+            rsrc = G.render(G.flatten(ren), None, "space")
         vals = {"a": "I3", "b": "F4004000000000000", "c": "S" + hexs("xy"), "x": "B1", "y": "T(I1,I2)", "max": "I9"}
         s1 = ["init %s %s" % (hexs(k), v) for k, v in vals.items()] + ["setfn %s id" % hexs("f"), "setfn %s swap" % hexs("g"), "ev nmv " + hexs(src)]
         s2 = ["init %s %s" % (hexs("v_" + k), v) for k, v in vals.items()] + ["setfn %s id" % hexs("f"), "setfn %s swap" % hexs("g"), "ev nmv " + hexs(rsrc)]
@@ -2351,6 +2397,13 @@ def c14_oracle(case, out, model_out):
             want = (",".join(nodes_l), str(len(rest)), rest[-1] if rest else "-", "".join(x + ";" for x in rest))
             if (seen, cnt, last, folded) != want:
                 return "Node::iter() of %r used through next() x%d then for_each / count / last / fold gives %s, the pre-order traversal gives %s" % (m["src"], k, (seen, cnt, last, folded), want)
+    af = re.search(r"after<([^>]*)>", out)
+    if af and "occ" in m:
+        pre = {"R": "ivr", "W": "ivw", "F": "if"}
+        jj = lambda cls: ",".join(hexs(pre[c] + nm) for c, nm in m["occ"] if c in cls)
+        want_after = ";".join([jj("WFR"), jj("WR"), jj("R"), jj("W"), jj("F")])
+        if af.group(1) != want_after:
+            return "after rewriting the identifiers of %r through the mutable iterators, the immutable iterators list %s; the names are now %s" % (m["src"], af.group(1)[:300], want_after[:300])
     fr = re.search(r"free<(ERR (?:Variable|Function)IdentifierNotFound\(([0-9a-f]*)\))>", out)
     if fr:
         listed = (got.get("vars", "") if "Variable" in fr.group(1) else got.get("fns", "")).split(",")
@@ -2570,6 +2623,15 @@ def c06_gen(tier, rng):
         else:
             want = "(%s %s)" % ("Tuple" if "," in sep else "Chain", " ".join("(RootNode (Const:S%s))" % hexs(t) for t in ts))
         tree(src, "OK (RootNode %s)" % want)
+    for src, want in [("true-1", "(Sub (Const:B1) (Const:I1))"), ("false+1.5", "(Add (Const:B0) %s)" % F("1.5")), ("3*false-(2)", "(Sub (Mul (Const:I3) (Const:B0)) (RootNode (Const:I2)))"),
+                      ("a&&true-b", "(And (Read:61) (Sub (Const:B1) (Read:62)))"), ("true+true", "(Add (Const:B1) (Const:B1))"), ("false-false-1", "(Sub (Sub (Const:B0) (Const:B0)) (Const:I1))"),
+                      ("true-", "(Sub (Const:B1))"), ("1-true", "(Sub (Const:I1) (Const:B1))")]:
+        tree(src, "OK (RootNode %s)" % want)
+    # evaluations in one thread, one after the other: a literal that failed leaves nothing behind for the next one
+    for bad in ['"abc', '"ab\\q cd"', '"x\\', '1 + "zz', '"\\n"']:
+        for good, val in [('"def"', "S" + hexs("def")), ('"" + "g"', "S" + hexs("g")), ('len("hi")', "I2"), ('("p", "q")', "T(S70,S71)")]:
+            cases.append((G.script("H", ["evc sfv " + hexs(bad), "evc sfv " + hexs(good), "evc smv " + hexs(bad), "evc srv " + hexs(good), "evc build " + hexs(bad), "evc nfv " + hexs(good)]),
+                          {"kind": "literal-seq", "src": bad + "  then  " + good, "want": "OK " + val}))
     tree("2e-3x", "OK (RootNode (Sub (Read:%s) (Read:%s)))" % (hexs("2e"), hexs("3x")))
     tree("1e+2e", "OK (RootNode (Add (Read:%s) (Read:%s)))" % (hexs("1e"), hexs("2e")))
     tree("1e-3.5.1", "OK (RootNode (Sub (Read:%s) (Read:%s)))" % (hexs("1e"), hexs("3.5.1")))
@@ -2606,6 +2668,11 @@ def c06_oracle(case, out, model_out):
     if m.get("kind") == "literal":
         if out != m["want"]:
             return "the literal %r precompiles to %s, it denotes %s" % (m["src"], out[:200], m["want"][:200])
+    if m.get("kind") == "literal-seq" and not out.startswith("PANIC"):
+        st = step_outputs(out)
+        for k in (1, 3, 5):
+            if st[k] != m["want"]:
+                return "%r (evaluated one after the other): the well-formed source gives %s, expected %s" % (m["src"], st[k][:200], m["want"])
     if m.get("kind") == "literal-eval":
         last = step_outputs(out)[-1]
         if last != m["want"]:
@@ -3000,7 +3067,7 @@ def c16_special(tier, rng, hooks):
         else:
             src = G.rand_unicode_string(rng, 12)
         lines.append("%d\tSERDEN\t%s" % (i, hexs(src)))
-    for src in ["", " ", "  a + 1  ", "\ta\n", "1 +", ")", "\"", "a /* x", "1, 2; 3", "1 + 2 /* todo", "/*", "-5", "+5", "-9223372036854775808", "9223372036854775807", " 7", "7 ", "0x10", "-0x10", "1e3", "true", "-1.5", "+1.5", "007", "1_000", " -5 ", "--5", "- 5", "\"a\\n\"", "(", "a b", "1 2", "= 1", "a \\ b", "\"\\", "1 )) 2"]:
+    for src in ["", " ", "  a + 1  ", "\ta\n", "1 +", ")", "\"", "a /* x", "1, 2; 3", "1 + 2 /* todo", "/*", "(1+2)", "((a))", "()", "(1, 2)", "(a = 1; a)", "(1)+(2)", "(((1)))", "-5", "+5", "-9223372036854775808", "9223372036854775807", " 7", "7 ", "0x10", "-0x10", "1e3", "true", "-1.5", "+1.5", "007", "1_000", " -5 ", "--5", "- 5", "\"a\\n\"", "(", "a b", "1 2", "= 1", "a \\ b", "\"\\", "1 )) 2"]:
         lines.append("%d\tSERDEN\t%s" % (len(lines), hexs(src)))
     # strings that differ only in white space (inside a string literal, at the end of a line comment, between tokens),
     # deserialized one after the other in the same thread
